@@ -591,15 +591,46 @@ func rulePruneTogether(c *Ctx) {
 		c.bad("OnPrune.bookkeeping", pruneLoop.Pos(), "pruning loop does not update all of indices (%v), nodes (%v) and indexOffset (%v) per pruned node", hasDeleteIdx, hasShrink, hasOffset)
 	}
 	// sink call: argument ref must come from the collected node, canonical from the same element
+	// (in OnPrune itself or in an unexported method of the array that it calls)
 	var sinkCall *ast.CallExpr
-	ast.Inspect(fd.Body, func(n ast.Node) bool {
-		if call, ok := n.(*ast.CallExpr); ok {
-			if sel, ok := call.Fun.(*ast.SelectorExpr); ok && sel.Sel.Name == "OnPrunedNode" {
-				sinkCall = call
-			}
+	sinkFd := fd
+	sinkRecv := recv
+	searchIn := []*ast.FuncDecl{fd}
+	for round := 0; round < 2; round++ {
+		for _, cf := range append([]*ast.FuncDecl{}, searchIn...) {
+			ast.Inspect(cf.Body, func(n ast.Node) bool {
+				if call, ok := n.(*ast.CallExpr); ok {
+					if f := calleeFunc(info, call); f != nil && !f.Exported() && f.Pkg() == pk.Types {
+						c.P.funcDecls(func(p2 *packages.Package, f2 *ast.FuncDecl) {
+							if p2 == pk && f2.Body != nil && p2.TypesInfo.Defs[f2.Name] == f {
+								for _, e := range searchIn {
+									if e == f2 {
+										return
+									}
+								}
+								searchIn = append(searchIn, f2)
+							}
+						})
+					}
+				}
+				return true
+			})
 		}
-		return true
-	})
+	}
+	for _, cf := range searchIn {
+		ast.Inspect(cf.Body, func(n ast.Node) bool {
+			if call, ok := n.(*ast.CallExpr); ok && sinkCall == nil {
+				if sel, ok := call.Fun.(*ast.SelectorExpr); ok && sel.Sel.Name == "OnPrunedNode" {
+					sinkCall = call
+					sinkFd = cf
+					if cf.Recv != nil && len(cf.Recv.List) == 1 && len(cf.Recv.List[0].Names) == 1 {
+						sinkRecv = info.Defs[cf.Recv.List[0].Names[0]]
+					}
+				}
+			}
+			return true
+		})
+	}
 	if sinkCall == nil {
 		c.bad("OnPrune.sink", fd.Pos(), "OnPrune never notifies the sink")
 	} else if len(sinkCall.Args) == 3 {
@@ -650,10 +681,22 @@ func rulePruneTogether(c *Ctx) {
 			return ok && inBody && be.Op == token.NEQ && isRecvField(info, be.X, recv, "sink")
 		}
 		collectGuarded := guardedBy(parents, collect, sinkGuard)
-		callGuarded := sinkCall != nil && guardedBy(parents, sinkCall, sinkGuard)
+		callGuarded := false
+		if sinkCall != nil {
+			sparents := parents
+			if sinkFd != fd {
+				sparents = parentMap(sinkFd.Body)
+			}
+			callGuarded = guardedBy(sparents, sinkCall, func(cond ast.Expr, inBody bool) bool {
+				be, ok := ast.Unparen(cond).(*ast.BinaryExpr)
+				return ok && inBody && be.Op == token.NEQ && isRecvField(info, be.X, sinkRecv, "sink")
+			})
+		}
 		switch {
 		case collectGuarded:
 			c.bad("OnPrune.nilsink", collect.Pos(), "nodes are only collected for pruning when pr.sink != nil: without a sink nothing is ever pruned (the array grows without bound and finalization never takes effect)")
+		case sinkCall == nil:
+			c.bad("OnPrune.nilsink", collect.Pos(), "the sink is never notified")
 		case !callGuarded:
 			c.bad("OnPrune.nilsink", sinkCall.Pos(), "pr.sink.OnPrunedNode is called without a nil check of pr.sink")
 		default:
